@@ -19,6 +19,8 @@ import math, os, json
 from concurrent.futures import ProcessPoolExecutor
 from .common import *
 from . import c14_net
+from . import c14_gen
+regenerate = c14_gen.regenerate          # setup.sh regenerates Gen/IntBackendGen.v through this name
 
 INT32_MIN, INT32_MAX = -2 ** 31, 2 ** 31 - 1
 KS = [(1, 1), (3, 3), (3, 3), (3, 1), (1, 3), (2, 2), (3, 2)]
@@ -409,7 +411,9 @@ def chan_lits(items):
 
 def run(ctx):
     setup_torch()
+    gen_rejected = c14_gen.regenerate(ctx)
     built = ctx.build()
+    ctx.extra['generated_model'] = c14_gen.status(gen_rejected, built)
     ctx.rule = ('networks: grammar of 1..2 blocks (plain conv | depthwise+pointwise) with kernel in {1x1,3x3,3x1,1x3,2x2,3x2}, per-axis stride/padding, '
                 'dilation 2..3 on exactly one axis, BN, bias all/none/mixed, head = flatten|avgpool + [hidden Linear + ReLU] + Linear or fully convolutional; w/a bits in {2,4,8}; '
                 'random PACT clips; both backends, MATCH scale_bit/shift_pos in {default,(8,16),(16,32),(32,32),(4,8),(12,24)}; one case = one (network, backend); '
@@ -773,6 +777,10 @@ def run(ctx):
             vals = ctx.coq_eval_sharded('cases', ['Plinio.Model.Quant', 'Plinio.Model.IntBackend'], '', exprs, shard=max(60, min(300, len(exprs) // NPROC + 1)))
             for h, v in zip(handlers, vals):
                 h(v)
+            # the model GENERATED from the integer backends' source on this run, on the same cases
+            gvals = ctx.coq_eval_sharded('gcases', c14_gen.IMPORTS, '', c14_gen.gen_exprs(exprs), shard=max(60, min(300, len(exprs) // NPROC + 1)))
+            mism += c14_gen.differences(exprs, vals, gvals)
+            ctx.corr += len(gvals)
             if pending_pre:
                 pres = ctx.coq_eval_sharded('pre', ['Plinio.Model.Quant', 'Plinio.Model.IntBackend'], '', [p_[0] for p_ in pending_pre], shard=200)
                 for (_, yi, m, tol, info), (n_, d_) in zip(pending_pre, pres):
@@ -793,7 +801,9 @@ def run(ctx):
         for m in mism[:12]:
             print('MISM', str(m)[:1500])
     if not ctx.violations:
-        if not built:
+        if not built and c14_gen.report(ctx, gen_rejected, built):
+            pass
+        elif not built:
             ctx.violation('proof-broken', {'theorems': [o[0] for o in ctx.obligations if not o[1]], 'log': getattr(ctx, 'broken_log', '')[-3000:]}, 'Props/C14.v no longer checks', no_input=True)
         elif not model_ok:
             ctx.violation('model-eval-broken', {'notes': ctx.notes}, 'the model could not be evaluated', no_input=True)
